@@ -99,8 +99,37 @@ func retryRules(c *Ctx) {
 		pickS(first && again, "value() is dominated by ctx.Err() == nil and every path from one attempt to the next passes the check", "an attempt can be started without the context having been checked since the previous attempt (a call could start after cancellation)"), op)
 	// return shapes
 	res, errv := resultOf(op, 0), resultOf(op, 1)
-	for _, r := range returnsOf(l.fn) {
-		rv, ev := r.Results[0], r.Results[1]
+	var tuples []retTuple
+	for _, r0 := range returnsOf(l.fn) {
+		tuples = append(tuples, c.returnTuples(r0)...)
+	}
+	for _, tp := range tuples {
+		r := tp.site
+		rv, ev := tp.vals[0], tp.vals[1]
+		// the error of a cancellation return: ctx.Err(), also as the loop variable of `for err = ctx.Err(); err == nil; err = ctx.Err()`
+		errCalls := func(v ssa.Value) []*ssa.Call {
+			isErr := func(x ssa.Value) *ssa.Call {
+				call, ok := x.(*ssa.Call)
+				if ok && call.Call.IsInvoke() && call.Call.Method.Name() == "Err" {
+					return call
+				}
+				return nil
+			}
+			if cl := isErr(v); cl != nil {
+				return []*ssa.Call{cl}
+			}
+			var out []*ssa.Call
+			if ph, ok := v.(*ssa.Phi); ok {
+				for _, e := range ph.Edges {
+					cl := isErr(e)
+					if cl == nil || (len(out) > 0 && !sameRead(P, cl.Call.Value, out[0].Call.Value)) {
+						return nil
+					}
+					out = append(out, cl)
+				}
+			}
+			return out
+		}
 		switch {
 		case isNilConst(ev):
 			ok := rv == res
@@ -125,10 +154,10 @@ func retryRules(c *Ctx) {
 				ok = false
 			}
 			l.add("PATH", "a fatal error returns that call's result with the unwrapped error", ok, "return (result, unpackFatalError(err)) only through isFatalError(err)", r)
-		case P.IsCallResult(ev, "invoke:context.Context.Err", 0):
+		case P.IsCallResult(ev, "invoke:context.Context.Err", 0) || len(errCalls(ev)) > 0:
 			// ... and only because the context IS cancelled: the return is reachable only through the non-nil edge of a test
 			// of ctx.Err() (an error that merely looks like a cancellation - a per-attempt timeout, say - is retried)
-			ctxv := ev.(*ssa.Call).Call.Value
+			ctxv := errCalls(ev)[0].Call.Value
 			via := false
 			ifs, negs := P.IfsOn(l.fn, func(cond ssa.Value) bool {
 				b, ok := cond.(*ssa.BinOp)
@@ -136,8 +165,11 @@ func retryRules(c *Ctx) {
 					return false
 				}
 				isErr := func(v ssa.Value) bool {
+					if v == ev {
+						return true
+					}
 					call, ok := v.(*ssa.Call)
-					return ok && call.Call.IsInvoke() && call.Call.Method.Name() == "Err" && call.Call.Value == ctxv
+					return ok && call.Call.IsInvoke() && call.Call.Method.Name() == "Err" && sameRead(P, call.Call.Value, ctxv)
 				}
 				return either(b, isErr, isNilConst)
 			})
@@ -269,6 +301,29 @@ func retryRules(c *Ctx) {
 				_ = rate
 			}
 		}
+		if !okd {
+			// the same when the rate is not captured (a join of the parameter and the default)
+			for _, in := range an.AllInstrs(q.fn, func(in ssa.Instruction) bool { _, ok := in.(*ssa.Phi); return ok }) {
+				ph := in.(*ssa.Phi)
+				var defEdge, prmEdge = -1, -1
+				for i, e := range ph.Edges {
+					if k, isK := constInt(e); isK && k == 300*1000*1000 {
+						defEdge = i
+					}
+					if e == ssa.Value(q.fn.Params[1]) {
+						prmEdge = i
+					}
+				}
+				if len(ph.Edges) != 2 || defEdge < 0 || prmEdge < 0 {
+					continue
+				}
+				pred := ph.Block().Preds[defEdge]
+				got := P.PathCond(q.fn, nil, pred.Instrs[len(pred.Instrs)-1], func(f string) bool { return strings.Contains(f, "rate") })
+				if fs := got.Forms(); len(fs) == 1 {
+					okd, _ = an.EquivDNF(got, an.DNF{conj(lit(an.FormLinBase(fs[0]), an.SNeg|an.SZero))})
+				}
+			}
+		}
 		q.add("COND", "the rate defaults to 300ms iff rate <= 0", okd, "rate = 300ms stored iff rate <= 0", nil)
 	}
 	// waitDuration: a select containing ctx.Done(), timer stopped
@@ -316,8 +371,12 @@ func retryRules(c *Ctx) {
 				continue
 			}
 			// the value on the failed side of the fatalError type test
-			if v == ssa.Value(u.fn.Params[0]) {
-				tas := an.AllInstrs(u.fn, func(in ssa.Instruction) bool { ta, ok := in.(*ssa.TypeAssert); return ok && ta.CommaOk && ta.X == v })
+			{
+				// (the parameter itself, or - in the iterative form - the loop variable that starts as the parameter)
+				tas := an.AllInstrs(u.fn, func(in ssa.Instruction) bool {
+					ta, ok := in.(*ssa.TypeAssert)
+					return ok && ta.CommaOk && ta.X == v && ta.AssertedType.String() == P.Types.Path()+".fatalError"
+				})
 				if len(tas) == 1 {
 					okx := resultOf2(tas[0].(*ssa.TypeAssert), 1)
 					ifs, negs := P.IfsOn(u.fn, func(cond ssa.Value) bool { return cond == okx })
@@ -338,11 +397,38 @@ func retryRules(c *Ctx) {
 	}
 	if f := c.F("isFatalError"); f.ok() {
 		good := false
-		for _, r := range returnsOf(f.fn) {
-			if ex, ok := r.Results[0].(*ssa.Extract); ok && ex.Index == 1 {
+		isOK := func(v ssa.Value) bool {
+			if ex, ok := v.(*ssa.Extract); ok && ex.Index == 1 {
 				if ta, ok := ex.Tuple.(*ssa.TypeAssert); ok && ta.X == ssa.Value(f.fn.Params[0]) && ta.AssertedType.String() == P.Types.Path()+".fatalError" {
-					good = true
+					return true
 				}
+			}
+			return false
+		}
+		rets := returnsOf(f.fn)
+		for _, r := range rets {
+			if isOK(r.Results[0]) {
+				good = true
+			}
+		}
+		if !good && len(rets) > 0 {
+			// the same spelled as a branch on the assertion: `return true` only where it held, `return false` only where not
+			okIfs, okNegs := P.IfsOn(f.fn, isOK)
+			good = len(okIfs) == 1
+			for _, r := range rets {
+				b, isB := constBool(r.Results[0])
+				if !isB || !good {
+					good = false
+					break
+				}
+				edge := 0
+				if !b {
+					edge = 1
+				}
+				if okNegs[0] {
+					edge = 1 - edge
+				}
+				good = f.onlyViaEdge(r, okIfs[0], edge)
 			}
 		}
 		f.add("PROV", "fatality is decided on the outermost wrapper only", good, pickS(good, "isFatalError is err.(fatalError)", "isFatalError no longer is a type assertion on the error itself (e.g. errors.As walks the whole chain: a retryable error that merely contains a fatal one would stop the loop with the wrapper still inside)"), nil)
@@ -369,4 +455,18 @@ func init() {
 			floorKey("waitDuration", 2, "/init$waitDuration1/"),
 		},
 	})
+}
+
+// sameRead: the same value, or two reads of the same captured variable.
+func sameRead(P *an.Prog, a, b ssa.Value) bool {
+	if a == b {
+		return true
+	}
+	la, oka := isLoad(a)
+	lb, okb := isLoad(b)
+	if oka && okb {
+		ca, cb := P.CellOf(la.X), P.CellOf(lb.X)
+		return ca != nil && ca == cb
+	}
+	return false
 }
